@@ -14,7 +14,7 @@ var pureStdPkgs = map[string]bool{
 	"strings": true, "strconv": true, "net/textproto": true, "time": true, "maps": true, "slices": true, "iter": true,
 	"errors": true, "fmt": true, "unicode": true, "unicode/utf8": true, "cmp": true, "math": true, "bytes": true,
 	"unique": true, "hash/fnv": true, "encoding/base64": true, "path/filepath": true, "sort": true, "log/slog": true,
-	"context": true, "net/url": true,
+	"context": true, "net/url": true, "runtime": true, "sync": true, "sync/atomic": true, "os": false,
 }
 
 var impureStd = map[string]bool{
